@@ -136,6 +136,17 @@ Definition fire (E : env) (r : role) (m : Z) (b : bool) : Z :=
   let s := site_of E r in
   apply_op (s_op s) m (if b then expr_val (e_const E) (s_expr s) else 0).
 
+(* the write of role [r] on the flag [m] is carry-free: a `+=` finds its bit clear, a `-=` finds it set
+   (`|=` and `=` are always safe) *)
+Definition fire_ok (E : env) (r : role) (m : Z) (b : bool) : bool :=
+  let s := site_of E r in
+  let v := if b then expr_val (e_const E) (s_expr s) else 0 in
+  match s_op s with
+  | OpAdd => Z.land m v =? 0
+  | OpSub => Z.land m v =? v
+  | _ => true
+  end.
+
 (* ------------------------------------------------------------------ ranges *)
 
 Fixpoint zseq (lo : Z) (n : nat) : list Z :=
